@@ -115,4 +115,38 @@ theorem triangle_cw_outside (a b c p : Pt) (hA : orientI a b c < 0)
     omega)
   rw [hr, this]; rfl
 
+set_option maxHeartbeats 1600000 in
+/-- degenerate (collinear) triangle: a non-zero winding number would force `p` onto the common line (same 27 x 8 split) -/
+theorem triangle_degenerate_nonzero_imp (a b c p : Pt) (hA : orientI a b c = 0) (hW : windSum p [a, b, c, a] ≠ 0) :
+    orientI a b p = 0 ∧ orientI b c p = 0 ∧ orientI c a p = 0 := by
+  have hb := bary_y a b c p
+  have hs := orient_sum a b c p
+  simp only [windSum, edgeContrib_eq] at hW
+  rcases Int.lt_trichotomy (orientI a b p) 0 with o1 | o1 | o1 <;>
+  rcases Int.lt_trichotomy (orientI b c p) 0 with o2 | o2 | o2 <;>
+  rcases Int.lt_trichotomy (orientI c a p) 0 with o3 | o3 | o3 <;>
+  by_cases ga : p.2 ≤ a.2 <;> by_cases gb : p.2 ≤ b.2 <;> by_cases gc : p.2 ≤ c.2 <;>
+    first
+      | exact ⟨by omega, by omega, by omega⟩
+      | (exfalso
+         have la : (a.2 < p.2) ↔ ¬ p.2 ≤ a.2 := by omega
+         have lb : (b.2 < p.2) ↔ ¬ p.2 ≤ b.2 := by omega
+         have lc : (c.2 < p.2) ↔ ¬ p.2 ≤ c.2 := by omega
+         first
+           | (simp only [la, lb, lc, ga, gb, gc, o1, o2, o3, Int.le_refl, Int.lt_irrefl, not_true_eq_false, not_false_eq_true,
+                true_and, false_and, and_true, and_false, if_true, if_false] at hW; omega)
+           | nlinarith [hb, hs, hA])
+
+/-- **a degenerate triangle has winding number 0 about every point** (on its line the three contributions telescope) -/
+theorem triangle_degenerate (a b c p : Pt) (hA : orientI a b c = 0) : windSum p [a, b, c, a] = 0 := by
+  by_cases h : windSum p [a, b, c, a] = 0
+  · exact h
+  · obtain ⟨h1, h2, h3⟩ := triangle_degenerate_nonzero_imp a b c p hA h
+    simp only [windSum, edgeContrib_eq, h1, h2, h3, Int.le_refl, and_true]
+    by_cases ga : p.2 ≤ a.2 <;> by_cases gb : p.2 ≤ b.2 <;> by_cases gc : p.2 ≤ c.2 <;>
+      (have la : (a.2 < p.2) ↔ ¬ p.2 ≤ a.2 := by omega
+       have lb : (b.2 < p.2) ↔ ¬ p.2 ≤ b.2 := by omega
+       have lc : (c.2 < p.2) ↔ ¬ p.2 ≤ c.2 := by omega
+       simp [la, lb, lc, ga, gb, gc])
+
 end SpVerif.Geom
